@@ -102,7 +102,8 @@ def gen_case(S, tier):
         par = gen_par(rng, fam)
         r = rng.random()
         if r < 0.35 and fam in SEEDED:
-            ops.append({"op": "seeded", "fam": fam, "par": par, "n": rng.choice([1, 1, 2, 5, 17]), "seed": rng.randrange(2 ** 31),
+            ops.append({"op": "seeded", "fam": fam, "par": par, "n": rng.choice([1, 1, 2, 5, 17]),
+                        "seed": rng.choice([0, 0, 1, 2 ** 32 - 2, 2 ** 31, 7]) if rng.random() < 0.3 else rng.randrange(2 ** 31),
                         "pre": rng.randint(0, 30), "mid": rng.randint(0, 30)})
         else:
             xs, us = gen_x(rng, fam, par)
